@@ -19,6 +19,15 @@ def rowOf (ver : Ver) (H : Bytes → Bytes) (T0 : Trie) : Pos → Bytes
   | .node p => rowKey p (H (encodeNode ver H (subAt T0 p)))
   | .val k => rowKey k (H ((lookup T0 k).getD []))
 
+/-- the position has a row: a node that is referenced by hash (the root, or an encoding of at least
+    32 bytes), a value that is stored by hash -/
+def ValidPos (ver : Ver) (H : Bytes → Bytes) (T0 : Trie) : Pos → Prop
+  | .node p => subAt T0 p ≠ nil ∧ (p ≠ [] → 32 ≤ (encodeNode ver H (subAt T0 p)).length)
+  | .val k => ∃ v, lookup T0 k = some v ∧ mustBeHashed ver v = true
+
+theorem validPos_of_hashAt {ver : Ver} {H : Bytes → Bytes} {T0 : Trie} {pre : Nibs} {h : Bytes}
+    (hh : HashAt ver H T0 pre h) : ValidPos ver H T0 (.node pre) := ⟨hh.1, hh.2.2⟩
+
 /-- the position lies at or below the path `pre` -/
 def Below (pre : Nibs) : Pos → Prop
   | .node p => pre <+: p
